@@ -12,9 +12,9 @@ import (
 	"os/exec"
 	"path"
 	"path/filepath"
+	"sort"
 	"strings"
 	"sync"
-	"syscall"
 	"time"
 
 	wt "github.com/hnakamur/whispertool"
@@ -43,40 +43,76 @@ func init() {
 	})
 }
 
-// probeHeld watches the lock on path: it waits (up to 3 s) until the file is locked by someone, then
-// keeps probing for 150 ms.  "held": locked at every probe from the first locked one on;
-// "released": it was seen locked and then free again; "neverlocked".
-func probeHeld(path string) string {
-	deadline := time.Now().Add(3 * time.Second)
-	seen := false
-	for time.Now().Before(deadline) {
-		if free, err := flockProbe(path); err == nil && !free {
-			seen = true
-			break
-		}
-		time.Sleep(2 * time.Millisecond)
-	}
-	if !seen {
-		return "neverlocked"
-	}
-	end := time.Now().Add(150 * time.Millisecond)
-	for time.Now().Before(end) {
-		if free, err := flockProbe(path); err != nil || free {
-			return "released"
-		}
-		time.Sleep(3 * time.Millisecond)
-	}
-	return "held"
+// intruder: a second session on a copy's destination, started while the copy's source request is pending.
+type intruder struct {
+	dest    string
+	watch   int64
+	pts     []wt.Point
+	done    chan struct{}
+	started bool
+	isaw    string // value bits of the watched slot as the session found it
+	inow    int64
+	result  string
 }
 
-// probingProxy: a server that forwards every request to the real server of the run; the first /view
-// request is answered only after probeHeld has watched destPath.
-func (s *sess) probingProxy(destPath string, result *string) (string, func()) {
+func (in *intruder) run() {
+	defer close(in.done)
+	db, err := wt.Open(in.dest)
+	if err != nil {
+		in.result = "openerr"
+		return
+	}
+	defer db.Close()
+	in.inow = time.Now().Unix()
+	ts, err := db.FetchFromArchive(0, wt.Timestamp(in.watch-1), wt.Timestamp(in.watch), wt.Timestamp(in.inow))
+	if err != nil || ts == nil || len(ts.Values()) != 1 {
+		in.result = "fetcherr"
+		return
+	}
+	in.isaw = showVal(ts.Values()[0])
+	if err := db.UpdatePointsForArchive(append([]wt.Point(nil), in.pts...), 0, wt.Timestamp(in.inow)); err != nil {
+		in.result = "updateerr"
+		return
+	}
+	if err := db.Sync(); err != nil {
+		in.result = "syncerr"
+		return
+	}
+	in.result = "saw=" + in.isaw
+}
+
+// wait: the session has ended (it may have had to wait for the copy to release the file)
+func (in *intruder) wait() string {
+	if !in.started {
+		in.result = "notstarted"
+		return "isaw=- inow=0"
+	}
+	select {
+	case <-in.done:
+	case <-time.After(30 * time.Second):
+		in.result = "stuck"
+	}
+	if in.isaw == "" {
+		return "isaw=- inow=0"
+	}
+	return fmt.Sprintf("isaw=%s inow=%d", in.isaw, in.inow)
+}
+
+// intruderProxy: a server that forwards every request to the real server of the run; on the first /view
+// request the intruder's session is started and given 300 ms before the request is passed on.
+func (s *sess) intruderProxy(in *intruder) (string, func()) {
 	real := s.serverURL()
 	var once sync.Once
 	srv := httptest.NewServer(http.HandlerFunc(func(w http.ResponseWriter, r *http.Request) {
 		if strings.HasPrefix(r.URL.Path, "/view") {
-			once.Do(func() { *result = probeHeld(destPath) })
+			once.Do(func() {
+				in.started = true
+				go in.run()
+				select {
+				case <-in.done:
+				case <-time.After(300 * time.Millisecond):
+				}
+			})
 		}
 		resp, err := http.Get(real + r.URL.RequestURI())
 		if err != nil {
@@ -163,18 +199,7 @@ func init() {
 	// until the end of the case; a "now" argument of 0 and the calls without one read it
 	register("setclock", func(s *sess, tk []string) {
 		t := atoi(tk[1])
-		// setclock T STEP: every reading of the clock shows STEP seconds more than the one before (a call that
-		// reads the clock reads it once: its instant is the first value it sees)
-		step := int64(0)
-		if len(tk) > 2 {
-			step = atoi(tk[2])
-		}
-		reads := int64(0)
-		wt.Now = func() time.Time {
-			v := t + step*reads
-			reads++
-			return time.Unix(v, 0)
-		}
+		wt.Now = func() time.Time { return time.Unix(t, 0) }
 		clockMocked = true
 		s.obs("setclock ok")
 	})
@@ -319,37 +344,34 @@ func init() {
 }
 
 func init() {
-	// cligenheld dest=NAME layout=..: generate is one session on the file it creates -- the path exists and is
-	// locked from the creation until the command returns.  The report goes to a FIFO nobody drains until the
-	// lock has been watched, so the command is held in the middle of its session.
-	handlers["cligenheld"] = func(s *sess, tk []string) {
+	// cligen2 dest=NAME layout=..: two generate commands for the same (missing) path, the second started while
+	// the first is at work: generate never replaces a file that is there, so exactly one of them succeeds
+	// and the file is a complete database.
+	handlers["cligen2"] = func(s *sess, tk []string) {
 		a := parseKV(tk[1:])
 		s.closeAll()
 		dest := filepath.Join(s.dir, a["dest"])
 		must(os.MkdirAll(filepath.Dir(dest), 0755))
-		fifo := filepath.Join(s.dir, "gen.fifo")
-		os.Remove(fifo)
-		must(syscall.Mkfifo(fifo, 0600))
-		result := make(chan string, 1)
-		go func() {
-			r, err := os.OpenFile(fifo, os.O_RDONLY, 0)
-			if err != nil {
-				result <- "fifoerr"
-				return
-			}
-			res := probeHeld(dest)
-			io.Copy(io.Discard, r)
-			r.Close()
-			result <- res
-		}()
-		c := &cmd.GenerateCommand{Dest: dest, Perm: 0644, AggregationMethod: wt.Sum, XFilesFactor: 0.5,
-			ArchiveInfoList: layoutFromCSV(a["layout"]), RandMax: 10, Fill: true, TextOut: fifo}
-		err, panicked := runCmd(c.Execute)
+		run := func(out chan string) {
+			c := &cmd.GenerateCommand{Dest: dest, Perm: 0644, AggregationMethod: wt.Sum, XFilesFactor: 0.5,
+				ArchiveInfoList: layoutFromCSV(a["layout"]), RandMax: 10, Fill: true, TextOut: ""}
+			defer func() {
+				if recover() != nil {
+					out <- "panic"
+				}
+			}()
+			out <- statusOf(c.Execute(), false)
+		}
+		r1, r2 := make(chan string, 1), make(chan string, 1)
+		go run(r1)
+		time.Sleep(time.Duration(a.num("stagger", 50)) * time.Millisecond)
+		go run(r2)
+		st := []string{<-r1, <-r2}
+		sort.Strings(st)
 		s.echo(strings.Join(tk, " "))
-		s.obs("cligenheld %s %s", statusOf(err, panicked), <-result)
+		s.obs("cligen2 %s", strings.Join(st, " "))
 	}
 }
-
 func init() {
 	// hremote kind=view|viewraw len=N body=HEX: the remote-read client against a server whose answer announces
 	// N body bytes (Content-Length) and sends the bytes HEX, then closes the connection.  The client runs in a
@@ -377,5 +399,49 @@ func init() {
 			}
 		}()
 		s.obs("hremote %s", runChild("rview", "http://"+l.Addr().String(), a.str("kind", "view"), fmt.Sprint(len(body))))
+	})
+}
+
+func init() {
+	// wfetchtick F id from until T step: a fetch without an explicit clock while the library's clock moves --
+	// every reading shows step seconds more than the one before.  However often the call looks at the clock, its
+	// answer is the answer for ONE of the instants it saw (compared with the explicit-clock fetch at each).
+	register("wfetchtick", func(s *sess, tk []string) {
+		f := s.file(tk[1])
+		if f.db == nil {
+			s.obs("wfetchtick nofile")
+			return
+		}
+		id, from, until := int(atoi(tk[2])), wt.Timestamp(atoi(tk[3])), wt.Timestamp(atoi(tk[4]))
+		t, step := atoi(tk[5]), atoi(tk[6])
+		old := wt.Now
+		reads := int64(0)
+		wt.Now = func() time.Time {
+			v := t + step*reads
+			reads++
+			return time.Unix(v, 0)
+		}
+		show := func(ts *wt.TimeSeries, err error) string {
+			switch {
+			case err != nil:
+				return "err:" + err.Error()
+			case ts == nil:
+				return "none"
+			}
+			return showSeries(ts)
+		}
+		got := show(f.db.FetchFromArchive(id, from, until, 0))
+		wt.Now = old
+		n := reads
+		if n < 1 {
+			n = 1
+		}
+		verdict := "inconsistent"
+		for i := int64(0); i < n; i++ {
+			if show(f.db.FetchFromArchive(id, from, until, wt.Timestamp(t+step*i))) == got {
+				verdict = "consistent"
+			}
+		}
+		s.obs("wfetchtick %s", verdict)
 	})
 }
